@@ -253,6 +253,21 @@ struct Builder
                 oi::Parallelepiped{Real3{h[0], h[1], h[2]}, Turn{o.at("alpha").get<double>()}, Turn{o.at("theta").get<double>()},
                                    Turn{o.at("phi").get<double>()}});
         }
+        if (k == "otrap")  // oracle-decided family: general trapezoid through the G4Trap-style helper
+        {
+            auto face = [](json const& f) {
+                oi::GenPrism::TrapFace r;
+                r.hy = f.at("hy").get<double>();
+                r.hx_lo = f.at("hx_lo").get<double>();
+                r.hx_hi = f.at("hx_hi").get<double>();
+                r.alpha = Turn{f.at("alpha").get<double>()};
+                return r;
+            };
+            return std::make_shared<oi::GenPrismShape>(
+                fresh(),
+                oi::GenPrism::from_trap(o.at("hz").get<double>(), Turn{o.at("theta").get<double>()},
+                                        Turn{o.at("phi").get<double>()}, face(o.at("lo")), face(o.at("hi"))));
+        }
         if (k == "otf")  // general rotation (doubles) + translation
         {
             SquareMatrixReal3 rot;
@@ -511,6 +526,48 @@ int in_ppiped(json const& o, Real3 const& p, int mode)
     return sign_all(res);
 }
 
+// General trapezoid (GenPrism::from_trap, "see Geant4 G4Trap"): faces at z = -+hz whose centres lie on the line
+// through the origin with polar angle theta and azimuth phi; each face is a trapezoid with its parallel edges
+// along x at y = centre -+ hy, of half-lengths hx_lo (at -hy) and hx_hi (at +hy), the line joining the edge
+// centres making the angle alpha with the y axis.  Corresponding vertices of the two faces are joined by straight
+// edges (G4GenericTrap): the section at height z is the quadrilateral of the linearly interpolated vertices.
+int in_trap(json const& o, Real3 const& p)
+{
+    double const twopi = 6.283185307179586;
+    double hz = o.at("hz").get<double>();
+    double tt = std::tan(twopi * o.at("theta").get<double>());
+    double ph = twopi * o.at("phi").get<double>();
+    double v[2][4][2];
+    for (int f = 0; f < 2; ++f)
+    {
+        json const& face = o.at(f == 0 ? "lo" : "hi");
+        double zc = f == 0 ? -hz : hz;
+        double cx = zc * tt * std::cos(ph), cy = zc * tt * std::sin(ph);
+        double hy = face.at("hy").get<double>(), x1 = face.at("hx_lo").get<double>(), x2 = face.at("hx_hi").get<double>();
+        double sh = hy * std::tan(twopi * face.at("alpha").get<double>());
+        // counterclockwise seen from +z
+        double q[4][2] = {{cx - sh + x1, cy - hy}, {cx + sh + x2, cy + hy}, {cx + sh - x2, cy + hy}, {cx - sh - x1, cy - hy}};
+        for (int i = 0; i < 4; ++i)
+            for (int c = 0; c < 2; ++c)
+                v[f][i][c] = q[i][c];
+    }
+    std::vector<double> res{std::fabs(p[2]) - hz};
+    double t = (p[2] + hz) / (2 * hz);
+    double w[4][2];
+    for (int i = 0; i < 4; ++i)
+        for (int c = 0; c < 2; ++c)
+            w[i][c] = (1 - t) * v[0][i][c] + t * v[1][i][c];
+    for (int i = 0; i < 4; ++i)
+    {
+        int j = (i + 1) % 4;
+        double ex = w[j][0] - w[i][0], ey = w[j][1] - w[i][1];
+        double len = std::hypot(ex, ey);
+        // signed distance to the edge line in the section plane, negative on the inner (left) side
+        res.push_back(-(ex * (p[1] - w[i][1]) - ey * (p[0] - w[i][0])) / (len > 0 ? len : 1));
+    }
+    return sign_all(res);
+}
+
 // expected label of a point in an oracle scene; "" = within the margin of some face (excluded)
 std::string oracle_label(json const& scene, Real3 const& p, int mode)
 {
@@ -527,7 +584,8 @@ std::string oracle_label(json const& scene, Real3 const& p, int mode)
             for (int i = 0; i < 3; ++i)
                 q[j] += tf.at("R").at(i).at(j).get<double>() * (p[i] - tf.at("t").at(i).get<double>());
         json const& o = tf.at("c");
-        int s = o.at("k").get<std::string>() == "oprism" ? in_prism(o, q) : in_ppiped(o, q, mode);
+        std::string const kind = o.at("k").get<std::string>();
+        int s = kind == "oprism" ? in_prism(o, q) : kind == "otrap" ? in_trap(o, q) : in_ppiped(o, q, mode);
         if (s == 0)
             near = true;
         if (s > 0)
@@ -866,6 +924,12 @@ struct ArrayInputBuilder
         auto const& arrays = spec.at("arrays");
         std::size_t na = arrays.size();
         inp.tol = Tolerance<>::from_default();
+        if (auto it = spec.find("tol"); it != spec.end())
+        {
+            // [rel, abs]: a non-default tolerance whose two members differ
+            inp.tol.rel = it->at(0).get<double>();
+            inp.tol.abs = it->at(1).get<double>();
+        }
         // universe ids: 0 global, then wrapper k = 1 + 2k, array k = 2 + 2k, then the leaves
         inp.universes.resize(1 + 2 * na);
         wrapper_of.resize(na);
@@ -1208,6 +1272,41 @@ int run_roundtrip(std::string const& scenes_path,
     out.flush();
     return 0;
 }
+//---------------------------------------------------------------------------//
+// C10 (second sentence, production pipeline): the OrangeInput of every scene -- logic, faces and flags exactly as
+// UnitProto::build + InputBuilder leave them -- written as JSON for `vcsg fix` (stored logic vs the postfix
+// machine of spec/Csg.tla; a volume not flagged `internal surfaces` must be a conjunction of literals)
+//---------------------------------------------------------------------------//
+int run_export(std::string const& scenes_path, std::string const& out_dir, std::string const& list_path)
+{
+    std::ifstream in(scenes_path);
+    if (!in)
+    {
+        std::cerr << "cannot open " << scenes_path << std::endl;
+        return 3;
+    }
+    std::ofstream list(list_path);
+    std::string line;
+    while (std::getline(in, line))
+    {
+        if (line.empty())
+            continue;
+        json scene = json::parse(line);
+        std::string name = out_dir + "/scene" + std::to_string(scene.at("id").get<int>()) + ".org.json";
+        try
+        {
+            OrangeInput a = build_scene(scene).input;
+            std::ofstream os(name);
+            os << a;
+            list << name << "\n";
+        }
+        catch (std::exception const& e)
+        {
+            list << "!" << name << " " << what_of(e) << "\n";   // construction failures are C09's business
+        }
+    }
+    return 0;
+}
 }  // namespace
 
 int main(int argc, char** argv)
@@ -1221,6 +1320,9 @@ int main(int argc, char** argv)
         return run_probe(argv[2], argv[3]);
     if (mode == "roundtrip" && argc == 7)
         return run_roundtrip(argv[2], argv[3], argv[4], std::atoi(argv[5]), static_cast<unsigned>(std::atol(argv[6])));
-    std::cerr << "usage: vbuild probe scenes out | vbuild roundtrip scenes fixtures out nrays seed" << std::endl;
+    if (mode == "export" && argc == 5)
+        return run_export(argv[2], argv[3], argv[4]);
+    std::cerr << "usage: vbuild probe scenes out | vbuild roundtrip scenes fixtures out nrays seed | vbuild export scenes dir list"
+              << std::endl;
     return 3;
 }
